@@ -1434,6 +1434,36 @@ func runC10(c *Checker) {
 		ruleNonSynIgnored(c, fn)
 	}
 	ruleHandshakeExtras(c, ch, sh)
+	// the constructors hand out a connection only after their handshake succeeded: its error is
+	// tested, the failing leg returns it, and start() runs on the success leg only
+	for _, pr := range [][2]string{{"gbn.NewClientConn", "clientHandshake"}, {"gbn.NewServerConn", "serverHandshake"}} {
+		ctor := w.Func(pr[0])
+		if ctor == nil {
+			c.anchorFail(pr[0])
+			continue
+		}
+		okk, why := false, "no handshake call"
+		for _, ci := range findCalls(ctor, func(ci ssa.CallInstruction) bool {
+			sc := ci.Common().StaticCallee()
+			return sc != nil && sc.Name() == pr[1]
+		}) {
+			call, isCall := ci.(*ssa.Call)
+			if !isCall {
+				continue
+			}
+			okk, why = errCheckedAndReturned(call, 0)
+			for _, st := range findCalls(ctor, func(x ssa.CallInstruction) bool {
+				sc := x.Common().StaticCallee()
+				return sc != nil && sc.Name() == "start"
+			}) {
+				if !hasFact(st.Block(), func(f Fact) bool { return factRel(f, isValue(ssa.Value(call)), isNilConst) == "==" }) {
+					okk, why = false, "start() is not under 'handshake error == nil'"
+				}
+			}
+		}
+		c.decide(okk, "GBNHS-2", pr[0]+"|a failed handshake ends the constructor", ctor.Pos(), "the handshake error is tested and returned; start() only on success",
+			pr[0]+" can hand out (or start) a connection whose handshake failed ("+why+"): one side is in the data phase without an agreed window")
+	}
 	c.floor("GBNHS-3", 3)
 
 	// ---- GBNHS-1 (cont.): the server never reports a completed handshake without having adopted N ----
